@@ -186,13 +186,14 @@ def drive(run, tier, rng, focus):
                         if op == "accv":
                             v = pick(D)
                             ev.update(i=i + 1, v=v)
-                            x = np.array(v, dtype=dtype)
+                            x = common.relayout(np.array(v, dtype=dtype), rng.choice(common.LAYOUTS))
                             x.flags.writeable = False
                             objs[i].accumulate(x)
                             bags[i].append(v)
                         elif op == "acct":
                             vs = [pick(D) for _ in range(rng.randint(2, 3))]
                             t, axis = layout_tensor(vs, rng, dtype)
+                            t = common.relayout(t, rng.choice(common.LAYOUTS))
                             ev.update(i=i + 1, vs=vs, layout=[list(t.shape), axis],
                                       flat=[int(v) for v in t.reshape(-1)], shape=list(t.shape), axis1=(axis % t.ndim) + 1)
                             t.flags.writeable = False
@@ -328,6 +329,7 @@ def check_apply(run, obj, bag, base, norm_var, nprng, ev):
         sl_ = [None] * x.ndim
         sl_[axis % x.ndim] = slice(None)
         x = (x + centre[tuple(sl_)]).astype(x.dtype)  # probes near the data
+        x = common.relayout(x, common.LAYOUTS[(len(bag) + len(shape)) % len(common.LAYOUTS)])
         x.flags.writeable = False
         with warnings.catch_warnings():
             warnings.simplefilter("ignore")
